@@ -18,6 +18,7 @@ func init() {
 		Explanation: `R02.1 pre-commit write confinement: in every function reachable from the overlay bowl's patching-phase API (NewOverlayBowl, Resume, Save, GetWriter, Transpose, Close and the methods of the entry writers it hands out) no file-system mutator takes a path (or pool) derived from the output folder / target pool, the entry writers' paths come from the stage pool, which is rooted in StageFolder; conversely every mutator whose path derives from OutputFolder sits in a function reachable only from Commit; ` +
 			`R02.2 commit phases run in the required order with errors checked (dirs+symlinks before transpositions and moves; transpositions before overlays and ghost deletion); R02.3 ghosts are deleted longest path first; R02.5 ghost detection covers files, symlinks and dirs on both sides; R02.4 overlay application ends with truncation; ` +
 			`R02.6 index-space consistency: no integer flows both into a use as an index of the new build's file list and into a use as an index of the old build's (bowl, patcher, rediff, diff); R02.7 in the bowl, every MkdirAll of a path derived from a tlc.Dir entry is preceded on every path by Lstat of the same path. ` +
+			`R03.6 (shared) an append to the overlay bowl's work lists is protected by a completed search of the list itself. ` +
 			`NOT decided: that the commit result equals the new build, independence from map iteration order in applyTranspositions, kind changes (old non-empty directory -> new file).`,
 		Assumptions: []string{
 			"file-system mutators are the screw/os functions OpenFile(with write flags)/Create/Remove/RemoveAll/Rename/Mkdir/MkdirAll/Symlink/Truncate/Chmod/WriteFile, FsPool.GetWriter and Container.Prepare",
@@ -206,8 +207,8 @@ func runC02(c *core.Ctx) {
 	c.Rule("R02.4", "overlay application ends with truncation")
 	c.Rule("R02.5", "ghost detection covers every entry kind")
 	c.Rule("R02.6", "index-space consistency")
+	ruleWorkListDedup(c)
 	c.Rule("R02.7", "directories are made after a no-follow look")
-	c.Rule("R02.8", "whole-file copies truncate their destination")
 	g := c.P.CallGraph(c.Tier == "thorough")
 	reachFrom := func(roots []*ssa.Function) map[*ssa.Function]bool {
 		reach := map[*ssa.Function]bool{}
@@ -443,69 +444,7 @@ func runC02(c *core.Ctx) {
 		c.Floor("R02.7", "MkdirAll of new-build directory entries in the bowl", nMk, 1)
 	}
 
-	// ---- R02.8: a whole-file copy onto a path that may hold a longer file truncates it: where a function copies
-	// an opened source file into a destination it opened for writing, the destination is opened with O_TRUNC
-	// (or truncated after the copy) - otherwise the tail of whatever was there survives
-	{
-		flag := func(name string) int64 {
-			if pk := c.P.All["os"]; pk != nil {
-				if k, ok := pk.Types.Scope().Lookup(name).(*types.Const); ok {
-					v, _ := constInt64(k)
-					return v
-				}
-			}
-			return -1
-		}
-		oTrunc, oWronly, oRdwr := flag("O_TRUNC"), flag("O_WRONLY"), flag("O_RDWR")
-		nCp := 0
-		for _, fn := range c.P.SrcFuncs() {
-			pk := core.PkgPathOf(fn)
-			if !strings.HasSuffix(pk, "/pwr/bowl") && !strings.HasSuffix(pk, "/archiver") {
-				continue
-			}
-			core.Instrs(fn, func(in ssa.Instruction) {
-				cp, ok := in.(*ssa.Call)
-				if !ok || (core.CalleeName(cp) != "io.Copy" && core.CalleeName(cp) != "io.CopyBuffer") || len(cp.Call.Args) < 2 {
-					return
-				}
-				var openW, openR *ssa.Call
-				for _, o := range core.Origins(cp.Call.Args[0]) {
-					if ex, ok := core.StripConv(o).(*ssa.Extract); ok {
-						if oc, ok := ex.Tuple.(*ssa.Call); ok && (strings.HasSuffix(core.CalleeName(oc), ".OpenFile")) {
-							openW = oc
-						}
-					}
-				}
-				for _, o := range core.Origins(cp.Call.Args[1]) {
-					if ex, ok := core.StripConv(o).(*ssa.Extract); ok {
-						if oc, ok := ex.Tuple.(*ssa.Call); ok && (strings.HasSuffix(core.CalleeName(oc), ".Open")) {
-							openR = oc
-						}
-					}
-				}
-				if openW == nil || openR == nil || len(openW.Call.Args) < 2 {
-					return
-				}
-				fl, isC := core.ConstInt(openW.Call.Args[1])
-				if !isC || (fl&oWronly == 0 && fl&oRdwr == 0) {
-					return
-				}
-				nCp++
-				truncs := fl&oTrunc != 0
-				if !truncs {
-					// or an explicit Truncate on the destination after the copy
-					core.Instrs(fn, func(x ssa.Instruction) {
-						if tc, ok := x.(*ssa.Call); ok && strings.HasSuffix(core.CalleeName(tc), ").Truncate") && core.FindPath(fn, cp, isInstr(x), nil) != nil {
-							truncs = true
-						}
-					})
-				}
-				c.Check(truncs, "R02.8", core.FnName(fn), "a whole-file copy truncates its destination", core.InstrPos(openW),
-					"destination opened with O_TRUNC (or truncated after the copy)", "a whole file is copied into a destination that was opened for writing without O_TRUNC and is not truncated afterwards: when the path already holds a longer file its tail survives the copy")
-			})
-		}
-		c.Floor("R02.8", "whole-file copies between opened files", nCp, 1)
-	}
+	ruleCopiesTruncate(c)
 
 	// ---- R02.3
 	dg := c.P.Fn("pwr/bowl", "overlayBowl.deleteGhosts")
@@ -690,3 +629,73 @@ func flowsFromSlice(v ssa.Value, ld *ssa.UnOp) bool {
 }
 
 var _ = fmt.Sprint
+
+// ruleCopiesTruncate is R02.8 (shared with C01: a duplicated or renamed file copied over a longer one must
+// come out byte for byte).
+func ruleCopiesTruncate(c *core.Ctx) {
+	c.Rule("R02.8", "whole-file copies truncate their destination")
+	// ---- R02.8: a whole-file copy onto a path that may hold a longer file truncates it: where a function copies
+	// an opened source file into a destination it opened for writing, the destination is opened with O_TRUNC
+	// (or truncated after the copy) - otherwise the tail of whatever was there survives
+	{
+		flag := func(name string) int64 {
+			if pk := c.P.All["os"]; pk != nil {
+				if k, ok := pk.Types.Scope().Lookup(name).(*types.Const); ok {
+					v, _ := constInt64(k)
+					return v
+				}
+			}
+			return -1
+		}
+		oTrunc, oWronly, oRdwr := flag("O_TRUNC"), flag("O_WRONLY"), flag("O_RDWR")
+		nCp := 0
+		for _, fn := range c.P.SrcFuncs() {
+			pk := core.PkgPathOf(fn)
+			if !strings.HasSuffix(pk, "/pwr/bowl") && !strings.HasSuffix(pk, "/archiver") {
+				continue
+			}
+			core.Instrs(fn, func(in ssa.Instruction) {
+				cp, ok := in.(*ssa.Call)
+				if !ok || (core.CalleeName(cp) != "io.Copy" && core.CalleeName(cp) != "io.CopyBuffer") || len(cp.Call.Args) < 2 {
+					return
+				}
+				var openW, openR *ssa.Call
+				for _, o := range core.Origins(cp.Call.Args[0]) {
+					if ex, ok := core.StripConv(o).(*ssa.Extract); ok {
+						if oc, ok := ex.Tuple.(*ssa.Call); ok && (strings.HasSuffix(core.CalleeName(oc), ".OpenFile")) {
+							openW = oc
+						}
+					}
+				}
+				for _, o := range core.Origins(cp.Call.Args[1]) {
+					if ex, ok := core.StripConv(o).(*ssa.Extract); ok {
+						if oc, ok := ex.Tuple.(*ssa.Call); ok && (strings.HasSuffix(core.CalleeName(oc), ".Open")) {
+							openR = oc
+						}
+					}
+				}
+				if openW == nil || openR == nil || len(openW.Call.Args) < 2 {
+					return
+				}
+				fl, isC := core.ConstInt(openW.Call.Args[1])
+				if !isC || (fl&oWronly == 0 && fl&oRdwr == 0) {
+					return
+				}
+				nCp++
+				truncs := fl&oTrunc != 0
+				if !truncs {
+					// or an explicit Truncate on the destination after the copy
+					core.Instrs(fn, func(x ssa.Instruction) {
+						if tc, ok := x.(*ssa.Call); ok && strings.HasSuffix(core.CalleeName(tc), ").Truncate") && core.FindPath(fn, cp, isInstr(x), nil) != nil {
+							truncs = true
+						}
+					})
+				}
+				c.Check(truncs, "R02.8", core.FnName(fn), "a whole-file copy truncates its destination", core.InstrPos(openW),
+					"destination opened with O_TRUNC (or truncated after the copy)", "a whole file is copied into a destination that was opened for writing without O_TRUNC and is not truncated afterwards: when the path already holds a longer file its tail survives the copy")
+			})
+		}
+		c.Floor("R02.8", "whole-file copies between opened files", nCp, 1)
+	}
+
+}
